@@ -263,7 +263,12 @@ pub fn build<Data: GarnishData>(parse_root: usize, parse_tree: Vec<ParseNode>, d
         }
 
         // an end instruction is only already present if this root emitted it, a root without instructions of its own still needs one
-        let last_instruction = if data.get_instruction_len() > root_start {
+        // and so does a root after which a jump table entry of this build continues (the join point of an else chain
+        // is recorded as 'the next instruction' before it is known whether anything gets emitted there)
+        let next_instruction = data.get_instruction_len();
+        let continued_after_root = Data::DataFactory::make_size_iterator_range(tree_root_jump.clone(), data.get_jump_table_len())
+            .any(|entry| data.get_from_jump_table(entry) == Some(next_instruction.clone()));
+        let last_instruction = if data.get_instruction_len() > root_start && !continued_after_root {
             data.get_instruction_iter().last()
         } else {
             None
